@@ -1,0 +1,12 @@
+//go:build verif
+
+package collection
+
+import (
+	"github.com/tidwall/geojson"
+	"github.com/tidwall/geojson/geometry"
+)
+
+// VerifSearchRect is the rectangle Within / Intersects search the spatial
+// index with for the query object q (searchRect).
+func VerifSearchRect(q geojson.Object) geometry.Rect { return searchRect(q) }
